@@ -151,6 +151,7 @@ func (bas *BlockAddrSchema) Copy() *BlockAddrSchema {
 		DependentBodyAsData:      bas.DependentBodyAsData,
 		InferDependentBody:       bas.InferDependentBody,
 		DependentBodySelfRef:     bas.DependentBodySelfRef,
+		BodySelfRef:              bas.BodySelfRef,
 		SupportUnknownNestedRefs: bas.SupportUnknownNestedRefs,
 		Steps:                    bas.Steps.Copy(),
 	}
